@@ -169,6 +169,45 @@ func contentMutator(class string) bool {
 	return false
 }
 
+// acquireWrapper: h is a helper that makes the one acquiring Flock call on a descriptor it is given and reports the
+// outcome as its error result; returns that Flock call (nil otherwise).
+func (f *Facts) acquireWrapper(h *ssa.Function) *ssa.Call {
+	if h == nil || h.Blocks == nil || h.Parent() != nil {
+		return nil
+	}
+	res := h.Signature.Results()
+	if res.Len() != 1 || res.At(0).Type().String() != "error" {
+		return nil
+	}
+	var raw *ssa.Call
+	for _, c := range callsIn(h) {
+		cc := c.Common()
+		if prm, ok := cc.Value.(*ssa.Parameter); ok && !cc.IsInvoke() {
+			if _, isSig := prm.Type().Underlying().(*types.Signature); isSig {
+				return nil // it runs a callback itself: that is a lock primitive, not a wrapper
+			}
+		}
+		if calleeFullName(cc) != "syscall.Flock" || len(cc.Args) != 2 {
+			continue
+		}
+		if op, ok := constInt(cc.Args[1]); ok && op == f.sysConst["LOCK_UN"] {
+			return nil // releases: not a pure acquire wrapper
+		}
+		cv, ok := c.(*ssa.Call)
+		if !ok || raw != nil {
+			return nil
+		}
+		raw = cv
+	}
+	if raw == nil {
+		return nil
+	}
+	if _, isParam := resolve(raw.Call.Args[0]).(*ssa.Parameter); !isParam {
+		return nil
+	}
+	return raw
+}
+
 func computeFacts(p *Prog) (*Facts, error) {
 	f := &Facts{osConst: map[string]int64{}, sysConst: map[string]int64{}, byCall: map[ssa.CallInstruction]*Effect{},
 		Callbacks: map[*ssa.Function]*lockSite{}, succ: map[*ssa.Function][]cgEdge{}, Anchors: map[string]*ssa.Function{}}
@@ -209,6 +248,9 @@ func computeFacts(p *Prog) (*Facts, error) {
 				if op, ok := constInt(cc.Args[1]); !ok || op != f.sysConst["LOCK_UN"] {
 					acquires = true
 				}
+			}
+			if h := cc.StaticCallee(); h != nil && p.InModule(h) && f.acquireWrapper(h) != nil {
+				acquires = true // the flock attempt lives in a small helper (tryFlock(fd, lockType) error)
 			}
 			if prm, ok := cc.Value.(*ssa.Parameter); ok && !cc.IsInvoke() {
 				if _, isSig := prm.Type().Underlying().(*types.Signature); isSig {
